@@ -260,6 +260,10 @@ class ExprMixin:
         raise Untranslatable(f'comparison {type(op).__name__}')
 
     def order(self, op, a, b, fr, node):
+        if isinstance(a, SV) and isinstance(a.ty, TOpt):
+            a = self.coerce(a, a.ty.elem)
+        if isinstance(b, SV) and isinstance(b.ty, TOpt):
+            b = self.coerce(b, b.ty.elem)
         if not isinstance(a, SV) and not isinstance(b, SV):
             import operator
             f = {ast.Lt: operator.lt, ast.LtE: operator.le, ast.Gt: operator.gt, ast.GtE: operator.ge}[type(op)]
